@@ -3,6 +3,12 @@
 import json, sys
 
 CHECKS = {
+ "C14": ("proptest-driven generation of failing payloads over plain-key types; containment oracle tying the JsonError / QueryParamError text to the first report of the keep-going run, path read-back",
+         "For every generated failing payload the message of both built-in error types must contain the independently rendered path of the first keep-going report, the per-kind facts (value as JSON text, field, key/value with all alternatives, reference did-you-mean suggestion, lengths, detail message) and, for JsonError, the path read back from the message must resolve to the quoted value.",
+         "Keys restricted to [A-Za-z0-9_]; facts checked by containment, so rewording does not raise an alarm.", "DESIGN.md §6 C14"),
+ "C16": ("grammar-based generation of derive inputs (programs), each poisoned with one rejection cause, compiled in batches with cargo check --message-format=json; oracle: a code-less error diagnostic attributed to the item; batch delta-debugging",
+         "Samples the product cause x level x one/two attributes x base shape (95 combinations reached in the thorough tier); a control batch proves the unpoisoned grammar compiles cleanly; a poisoned item without a derive diagnostic is the 'silently dropped or overrode' case.",
+         "Derive-issued diagnostics are recognised by the absence of an rustc error code; items are attributed by span line.", "DESIGN.md §6 C16"),
  "C02": ("proptest-driven generation, differential against a reference interpreter of the documented semantics (multiset of reports, examined payload nodes)",
          "Every generated (type, payload) is interpreted independently of deserr; the multiset of reports (kind, location, structured content) under an always-Continue error type must match, and every node the interpreter says must be examined was examined. Types include ~40 random derive inputs per seed.",
          "Only as good as the interpreter (DESIGN.md Appendix A, transcribed from docs and property statements); free-text messages matched by containment.", "DESIGN.md §6 C02"),
